@@ -19,7 +19,8 @@ RULE = ('AES: two designs per run, each built by ONE shared AES() object whose u
         'seeded random 128-bit key/block pairs on successive cycles (state machines: reset pulses with '
         'bogus data in between, early re-resets, random reset schedules); PRNGs: seeds x bitwidth in '
         '{1,7,63,64,65,127,128,129,200,256} x bits_per_cycle in {1,2,4,8,16,32,64} (3 and 17 must be '
-        'rejected) x protocol-abiding and random load/req schedules; every output compared on every '
+        'rejected) x protocol-abiding, random, and LONG-IDLE load/req schedules (idle stretches in every waiting state longer '
+        'than 2**width of every small register read off the built netlist, plus req/load at arbitrary phases); every output compared on every '
         'cycle.  A case is distinct by (circuit, parameters, stimulus) and non-trivial when its outputs '
         'take at least two values (AES pairs: always; PRNG schedules: at least one ready pulse).')
 IMPORTS = ('From Coq Require Import ZArith List.\nImport ListNotations.\nOpen Scope Z_scope.\n'
@@ -578,8 +579,63 @@ def build_prng(kind, bw, bpc=None, fast=False):
         ready <<= r
         rand <<= o
     blk = pyrtl.working_block()
+    if fast is None:
+        return blk
+    return make_prng_sim(blk, fast)
+
+
+def make_prng_sim(blk, fast):
     cls = pyrtl.FastSimulation if fast else pyrtl.Simulation
-    return cls(tracer=pyrtl.SimulationTrace(wires_to_track=[rand, ready], block=blk), block=blk)
+    outs = [w for w in blk.wirevector_subset(pyrtl.Output) if w.name in ('rand', 'ready')]
+    return cls(tracer=pyrtl.SimulationTrace(wires_to_track=outs, block=blk), block=blk)
+
+
+def counter_span(blk):
+    """2**bitwidth of the widest small register of the built design (internal counters / state
+    registers are read off the netlist, not assumed): idle stretches must outlast every one of them"""
+    small = [r.bitwidth for r in blk.wirevector_subset(pyrtl.Register) if r.bitwidth <= 16]
+    return 1 << max(small) if small else 1
+
+
+def prng_idle_schedule(rng, kind, bw, bpc, span):
+    """protocol history with LONG idle stretches in every state in which the unit waits for the user
+    (before any load, after the seed-initialised ready, after a result ready, between requests), each
+    longer than the range of every internal counter (span = 2**width read off the design, + margin),
+    plus req / load pulses at arbitrary phases of INIT and GEN"""
+    seedw = {'lfsr': 127, 'xoro': 128, 'triv': 160}[kind]
+    g = {'lfsr': 1, 'xoro': -(-bw // 64), 'triv': -(-bw // (bpc or 1))}[kind]
+    warm = (1152 // bpc + 1) if kind == 'triv' else 1
+    rows = []
+
+    def idle(n):
+        while n > 0:
+            m = n if n < 4 else rng.randint(1, n)
+            rows.append((0, 0, rng.getrandbits(seedw), m))
+            n -= m
+
+    def long_idle():
+        return rng.choice([span + rng.randint(2, 9), span + rng.randint(2, 9), 2 * span + rng.randint(1, 5), span, span - 1])
+    idle(span // 2 + rng.randint(1, 4))                       # waiting before any load
+    rows.append((1, 0, rng.getrandbits(seedw) | 1, 1))
+    idle(warm)                                               # initialisation completes
+    idle(span + rng.randint(2, 9))                           # ... and the user is busy elsewhere
+    rows.append((0, 1, rng.getrandbits(seedw), 1))
+    idle(g)
+    idle(span + rng.randint(2, 9))                           # result ready, nobody looks for a long time
+    rows.append((0, 1, rng.getrandbits(seedw), 1))
+    idle(g + rng.randint(0, 2))
+    rows.append((0, 1, rng.getrandbits(seedw), 1))           # back-to-back / slightly late request
+    idle(rng.randint(0, g))                                  # reload in the middle of a generation
+    rows.append((1, rng.getrandbits(1), rng.getrandbits(seedw), 1))
+    idle(warm + long_idle())
+    rows.append((0, 1, rng.getrandbits(seedw), 1))
+    idle(g + long_idle())
+    if kind == 'triv':                                       # request in the middle of the warm-up
+        rows.append((1, 0, rng.getrandbits(seedw), 1))
+        idle(rng.randint(0, warm - 1))
+        rows.append((0, 1, rng.getrandbits(seedw), 1))
+        idle(g + span // 2 + rng.randint(1, 4))
+    return rows
 
 
 def prng_schedule(rng, kind, bw, bpc, style, seeds=None):
@@ -646,6 +702,17 @@ def prng_configs(ctx):
                         continue
                 for rep in range(1 if (quick or bpc < 8) else 2):
                     cfgs.append(('triv', bw, bpc, style, rep))
+    # long-idle protocol histories (idle lengths derived from the counter widths of the built design)
+    for bw in ((7, 128) if quick else BITWIDTHS):
+        cfgs.append(('lfsr', bw, None, 'idle', 0))
+    for bw in ((1, 65, 200, 256) if quick else BITWIDTHS):
+        cfgs.append(('xoro', bw, None, 'idle', 0))
+    if quick:
+        tv = [(128, 64), (65, 32), (7, 16), (200, 8), (63, 4)]
+    else:
+        tv = [(bw, bpc) for bpc in BPCS for bw in ((128, 7, 65, 200) if bpc >= 4 else (7, 129))]
+    for bw, bpc in tv:
+        cfgs.append(('triv', bw, bpc, 'idle', 0))
     return cfgs
 
 
@@ -669,13 +736,19 @@ def check_prngs(ctx):
     for cfg in prng_configs(ctx):
         kind, bw, bpc, style, rep = cfg
         rng = ctx.sub_rng('prng', *cfg)
-        cases.append((cfg, prng_schedule(rng, kind, bw, bpc, style)))
+        cases.append((cfg, None if style == 'idle' else prng_schedule(rng, kind, bw, bpc, style)))
     exprs_m, exprs_s = [], []
     impl = []
-    for cfg, rle in cases:
+    for ci, (cfg, rle) in enumerate(cases):
         kind, bw, bpc, style, rep = cfg
+        blk = build_prng(kind, bw, bpc, fast=None)
+        if rle is None:
+            span = counter_span(blk)
+            ctx.count('prng-idle-counter-span', '%s:%s' % (kind, span))
+            rle = prng_idle_schedule(ctx.sub_rng('prng', *cfg), kind, bw, bpc, span)
+            cases[ci] = (cfg, rle)
         rows = expand(rle)
-        sim = build_prng(kind, bw, bpc, fast=len(rows) > 600)
+        sim = make_prng_sim(blk, len(rows) > 600)
         ctx.count('prng-simulator', 'FastSimulation' if len(rows) > 600 else 'Simulation')
         ref = {'lfsr': lambda: RefLfsr(bw), 'xoro': lambda: RefXoroshiro(bw), 'triv': lambda: RefTrivium(bw, bpc)}[kind]()
         tr, rf = [], []
